@@ -525,7 +525,7 @@ func main() {
 	dir, seed, thorough := cases.Args()
 	r := cq.NewRNG(seed)
 	s := cases.New("C15", dir, "LW.Corr.C15",
-		"14 bands (x repeater x dwell) x histories of up to 30 AddChannel/Disable/Enable calls with arbitrary ints (negative, huge, boundary) and frequencies (duplicates, zero, non-multiples of 100 Hz, 2.4 GHz, 32-bit extremes), each call under recover; after each history every accessor is read (all index lists, every uplink/downlink channel with its flags, GetCFList for 7 versions, index probes, lookups by frequency and frequency+DR); every frequency / DR / CFList the band then produces goes through the real RXParamSetupReq, NewChannelReq, DLChannelReq, PingSlotChannelReq, BeaconFreqReq, CFList and JoinAccept encoders and decoders. Non-trivial = history non-empty (CHist) or any encoder case; distinct = distinct printed case")
+		"14 bands (x repeater x dwell) x histories of up to 30 AddChannel/Disable/Enable calls with arbitrary ints (negative, huge, boundary) and frequencies (duplicates, zero, non-multiples of 100 Hz, 2.4 GHz, 32-bit extremes), each call under recover; after each history every accessor is read (all index lists, every uplink/downlink channel with its flags, GetCFList for 7 versions, index probes, lookups by frequency and frequency+DR); every frequency / DR / CFList the band then produces goes through the real RXParamSetupReq, NewChannelReq, DLChannelReq, PingSlotChannelReq, BeaconFreqReq, CFList and JoinAccept encoders and decoders; traces on one long-lived instance whose alphabet includes the observation calls (every accessor, GetCFList, LinkADRReq planning + apply), each answer compared with the model state at its position: every accessor directly before and after AddChannel / Disable / Enable, random interleavings with full snapshots; for US915/AU915/CN470 histories switching whole 16-channel blocks off (all, alternating, runs of 2-4 adjacent blocks at every position, single block left, sub-bands) whose channel-mask CFList must come back from the join-accept naming exactly the enabled channels. Non-trivial = history non-empty (CHist) or any encoder case; distinct = distinct printed case")
 	g := &gen{s: s, r: r, seen: map[string]bool{}}
 	cfgs := chanobs.Configs()
 	byName := func(n band.Name) chanobs.Config {
